@@ -37,6 +37,8 @@ _SYS = {}
 
 
 def system(name):
+    # (model, mesh, discretisation) are shared by the histories of one worker: C07 judges every history against a reference trajectory of real
+    # steps on the same discretisation; hidden state across calls is the subject of C08, which builds fresh objects per history
     if name in _SYS:
         return _SYS[name]
     if name == "conv8":
